@@ -101,7 +101,7 @@ def run(ctx: Ctx) -> None:
     ctx.assumptions += ["non-ASCII code points in string literals are printable (repr leaves them unescaped); the harness feeds only such"]
     ctx.rule("generated expressions (all node classes, depth<=4) + curated precedence/escape/f-string cases, harvested as real mypy nodes; "
              "non-trivial = depth>=1; distinct by source text")
-    b = coq.compile_props(ctx, {}, ["C02Escapes", "C02"])
+    b = coq.compile_props(ctx, {}, ["C02"])
     coq.record_build(ctx, b)
     rng = ctx.rng
     gen = G.Gen(rng)
